@@ -48,6 +48,6 @@ SPEC = {
                   "defect classes outside the guards. Model tied to the code by bit-exact in-Coq evaluation on every run.",
     "level_note": "Axioms: only Coq's standard real-number/classical axioms inherited from Flocq (listed in trusted_base). Trusted: Coq "
                   "kernel/VM, Flocq's definitions as the meaning of Go's float arithmetic, harness. Modelled not verified: "
-                  "uda/datatypes.go, uda/count, uda/min, uda/max, uda/avg, uda/gap (explicit-threshold path), AggRunner.Run only as glue.",
+                  "uda/uda.go, uda/count, uda/min, uda/max, uda/avg, uda/gap (explicit-threshold path), AggRunner.Run only as glue.",
     "design_ref": "§6 C23",
 }
